@@ -47,18 +47,25 @@ def _is_sum_axis0(v, target):
 
 
 class _OrderClient(BaseClient):
-    """typestate: once the sum over sources (sumup) has been taken, no non-linear per-source step (pixel_agg) may follow"""
-    def __init__(self, sum_stmts, agg_name):
-        self.sum_stmts, self.agg_name, self.bad = sum_stmts, agg_name, []
+    """typestate: once the sum over sources (sumup) has been taken, no non-linear per-source step (pixel_agg) may follow; and once the
+    pixels have been aggregated, no collection rows may be summed any more (a Collection is ONE source: its children are added up
+    before anything non-linear is applied to its field)"""
+    def __init__(self, sum_stmts, agg_name, col_stmts=()):
+        self.sum_stmts, self.agg_name, self.bad, self.col_stmts, self.bad_col = sum_stmts, agg_name, [], set(col_stmts), []
 
     def call_may_raise(self, call):
         return False
 
+    def _has_agg(self, s):
+        return any(isinstance(c, ast.Call) and isinstance(c.func, ast.Name) and c.func.id == self.agg_name for c in ast.walk(s))
+
     def transfer(self, s, S):
-        if "SUMMED" in S:
-            for c in ast.walk(s):
-                if isinstance(c, ast.Call) and isinstance(c.func, ast.Name) and c.func.id == self.agg_name and s not in self.bad:
-                    self.bad.append(s)
+        if "SUMMED" in S and self._has_agg(s) and s not in self.bad:
+            self.bad.append(s)
+        if "AGGREGATED" in S and id(s) in self.col_stmts and s not in self.bad_col:
+            self.bad_col.append(s)
+        if self._has_agg(s):
+            S = S | {"AGGREGATED"}
         if id(s) in self.sum_stmts:
             S = S | {"SUMMED"}
         return S
@@ -87,8 +94,19 @@ def level2_superposition(repo, res):
         if isinstance(n, ast.Assign) and isinstance(n.value, ast.Call) and call_name(n.value) == "check_format_pixel_agg" and isinstance(n.targets[0], ast.Name):
             agg = n.targets[0].id
     res.require(agg, "anchor vanished: pixel_agg resolver call in getBH_level2")
-    c = _OrderClient(sum_stmts, agg)
+    # statements that add up rows of one Collection: `<arr>[i] = np.sum(<arr>[..], axis=0)` / np.add.reduceat under an isinstance(.., Collection) test
+    col_stmts = set()
+    for iff in ast.walk(fn):
+        if isinstance(iff, ast.If) and "Collection" in ast.unparse(iff.test) and "isinstance" in ast.unparse(iff.test):
+            for s_ in ast.walk(iff):
+                if isinstance(s_, ast.Assign) and isinstance(s_.value, ast.Call) and call_name(s_.value) in ("sum", "reduceat"):
+                    col_stmts.add(id(s_))
+    c = _OrderClient(sum_stmts, agg, col_stmts)
     exits, nst = function_exits(fn, c)
+    res.ob("SUM-ORDER:collection rows summed before pixel_agg", not c.bad_col, {"rule": "SUM-ORDER", "collection_sum_statements": len(col_stmts)})
+    for s_ in c.bad_col:
+        res.add(Finding("SUM-ORDER", WREL, "getBH_level2", s_, "the children of a Collection are added up after the pixel aggregation: a Collection is one source, "
+                        "for reducers such as min/max/std agg(sum of children) != sum of agg(child)", s_.lineno))
     n_agg = sum(1 for x in ast.walk(fn) if isinstance(x, ast.Call) and isinstance(x.func, ast.Name) and x.func.id == agg)
     res.require(n_agg >= 1, "anchor vanished: pixel aggregation call sites")
     res.ob("SUM-ORDER:sumup after pixel_agg", not c.bad, {"rule": "SUM-ORDER", "aggregation_sites": n_agg, "statements": nst, "sumup_statements": len(sum_stmts)})
